@@ -43,10 +43,12 @@ struct Run {
     obs: Vec<J>,
     open: Vec<(usize, CallKind)>,
     store: BTreeMap<Vec<u8>, (Cid64, Vec<u8>)>,
-    connected: Vec<bool>,
+    /// open connections per peer
+    conns: Vec<Vec<usize>>,
+    next_conn: usize,
     answers: Vec<J>,
-    /// outstanding SendWantlist per peer (connection 0)
-    sending: Vec<u8>,
+    /// outstanding SendWantlist per peer: (stage 1..3, connection)
+    sending: Vec<(u8, usize)>,
 }
 
 impl Run {
@@ -58,9 +60,10 @@ impl Run {
             obs: vec![],
             open: vec![],
             store: BTreeMap::new(),
-            connected: vec![false; npeers],
+            conns: vec![vec![]; npeers],
+            next_conn: 0,
             answers: vec![],
-            sending: vec![0; npeers],
+            sending: vec![(0, 0); npeers],
         }
     }
 
@@ -82,17 +85,21 @@ impl Run {
     }
 
     fn connect(&mut self, p: usize) {
-        let _h = self.node.new_conn(p, 0);
-        self.connected[p] = true;
-        self.sending[p] = 0;
-        self.record(J::C("DConnect", vec![J::us(p)]), 3, vec![], vec![], vec![]);
+        let c = self.next_conn;
+        self.next_conn += 1;
+        let _h = self.node.new_conn(p, c);
+        self.conns[p].push(c);
+        self.record(J::C("DConnect", vec![J::us(p), J::us(c)]), 3, vec![], vec![], vec![]);
     }
 
-    fn disconnect(&mut self, p: usize) {
-        self.node.conn_closed(p, 0, 0);
-        self.connected[p] = false;
-        self.sending[p] = 0;
-        self.record(J::C("DDisconnect", vec![J::us(p)]), 3, vec![], vec![], vec![]);
+    fn close(&mut self, p: usize, c: usize) {
+        self.conns[p].retain(|x| *x != c);
+        let remaining = self.conns[p].len();
+        self.node.conn_closed(p, c, remaining);
+        if self.sending[p].1 == c {
+            self.sending[p] = (0, 0);
+        }
+        self.record(J::C("DClose", vec![J::us(p), J::us(c), J::B(remaining == 0)]), 3, vec![], vec![], vec![]);
     }
 
     fn get(&mut self, c: &Cid64) -> u64 {
@@ -121,18 +128,18 @@ impl Run {
         self.record(J::C("DAdvance", vec![J::n(ms)]), 3, vec![], vec![], vec![]);
     }
 
-    fn report(&mut self, p: usize, kind: u8) {
+    fn report(&mut self, p: usize, c: usize, kind: u8) {
         let now = Instant(clock::now_ms());
-        let cid = ConnectionId::new_unchecked(0);
+        let cid = ConnectionId::new_unchecked(c);
         let (state, j) = match kind {
             0 => (SendingState::Ready, J::c0("RpReady")),
-            1 => (SendingState::RequestReceived(now, cid), J::C("RpRequestReceived", vec![J::us(0usize)])),
-            2 => (SendingState::Sending(now, cid), J::C("RpSending", vec![J::us(0usize)])),
-            _ => (SendingState::Failed(cid), J::C("RpFailed", vec![J::us(0usize)])),
+            1 => (SendingState::RequestReceived(now, cid), J::C("RpRequestReceived", vec![J::us(c)])),
+            2 => (SendingState::Sending(now, cid), J::C("RpSending", vec![J::us(c)])),
+            _ => (SendingState::Failed(cid), J::C("RpFailed", vec![J::us(c)])),
         };
         let peer = self.node.peers[p];
-        self.node.handler_event(p, 0, ToBehaviourEvent::SendingStateChanged(peer, state));
-        self.record(J::C("DReport", vec![J::us(p), j]), 3, vec![], vec![], vec![]);
+        self.node.handler_event(p, c, ToBehaviourEvent::SendingStateChanged(peer, state));
+        self.record(J::C("DReport", vec![J::us(p), J::us(c), j]), 3, vec![], vec![], vec![]);
     }
 
     fn incoming(&mut self, p: usize, m: Message) {
@@ -155,7 +162,8 @@ impl Run {
             Ok(None) => 1,
             Ok(Some(inc)) => {
                 let peer = self.node.peers[p];
-                self.node.handler_event(p, 0, ToBehaviourEvent::IncomingMessage(peer, inc));
+                let via = self.conns[p].first().copied().unwrap_or(0);
+                self.node.handler_event(p, via, ToBehaviourEvent::IncomingMessage(peer, inc));
                 if full {
                     let s = server_snapshot(&self.node.b);
                     order = s.peers_wantlists.iter().find(|(q, _)| self.node.peer_index(q) == p).map(|(_, c)| c.clone()).unwrap_or_default();
@@ -166,12 +174,12 @@ impl Run {
         self.record(J::C("DIncoming", vec![J::us(p), message_j(&m), J::L(order.iter().map(cid_j).collect())]), processed, vec![], vec![], vec![]);
     }
 
-    fn poll(&mut self) -> Vec<usize> {
+    fn poll(&mut self) -> Vec<(usize, usize)> {
         let outs = self.node.poll_all();
         let mut events = Vec::new();
         let mut wants: Vec<(usize, J)> = Vec::new();
         let mut blocks: Vec<(usize, J)> = Vec::new();
-        let mut sent_to = Vec::new();
+        let mut sent_to: Vec<(usize, usize)> = Vec::new();
         for o in outs {
             match o {
                 Out::Event(Event::GetQueryResponse { query_id, data }) => {
@@ -186,7 +194,7 @@ impl Run {
                     events.push(J::C("LError", vec![J::n(beetswap::verif::client::query_id(query_id)), J::n(kind)]))
                 }
                 Out::SendWantlist { peer, conn, wantlist } => {
-                    sent_to.push(peer);
+                    sent_to.push((peer, conn));
                     wants.push((peer, J::T(vec![J::us(peer), J::us(conn), J::B(wantlist.full), gen_entries_j(&wantlist)])));
                 }
                 Out::SendBlocks { peer, blocks: bl, .. } => {
@@ -197,10 +205,12 @@ impl Run {
         }
         wants.sort_by_key(|(p, _)| *p);
         blocks.sort_by_key(|(p, _)| *p);
-        for p in &sent_to {
-            self.sending[*p] = 1;
+        for (p, c) in &sent_to {
+            self.sending[*p] = (1, *c);
         }
-        self.record(J::c0("DPoll"), 3, events, wants.into_iter().map(|(_, j)| j).collect(), blocks.into_iter().map(|(_, j)| j).collect());
+        sent_to.sort();
+        let choice = J::L(sent_to.iter().map(|(p, c)| J::T(vec![J::us(*p), J::us(*c)])).collect());
+        self.record(J::C("DPoll", vec![choice]), 3, events, wants.into_iter().map(|(_, j)| j).collect(), blocks.into_iter().map(|(_, j)| j).collect());
         sent_to
     }
 
@@ -255,16 +265,17 @@ fn history(rng: &mut Rng, len: usize) -> Case {
         match rng.below(44) {
             0..=4 => {
                 let p = rng.usize(npeers);
-                if !run.connected[p] {
+                if run.conns[p].is_empty() || (run.conns[p].len() < 3 && rng.chance(1, 3)) {
                     run.connect(p);
-                    tags.push("op/connect".into());
+                    tags.push(format!("op/connect{}", run.conns[p].len()));
                 }
             }
             5 => {
                 let p = rng.usize(npeers);
-                if run.connected[p] {
-                    run.disconnect(p);
-                    tags.push("op/disconnect".into());
+                if !run.conns[p].is_empty() {
+                    let c = *rng.pick(&run.conns[p]);
+                    run.close(p, c);
+                    tags.push(if run.conns[p].is_empty() { "op/close_last".into() } else { "op/close_one".into() });
                 }
             }
             6..=9 => {
@@ -296,23 +307,26 @@ fn history(rng: &mut Rng, len: usize) -> Case {
             16..=19 => {
                 // a handler report: mostly the disciplined answer to an outstanding wantlist
                 let p = rng.usize(npeers);
-                if run.connected[p] {
-                    let kind = match (run.sending[p], rng.below(10)) {
-                        (1, 0..=6) => { run.sending[p] = 2; 1 }
-                        (2, 0..=5) => { run.sending[p] = 3; 2 }
-                        (2, 6 | 7) | (3, 0..=7) => { run.sending[p] = 0; 0 }
-                        (1..=3, _) => { run.sending[p] = 0; 3 }
+                if !run.conns[p].is_empty() {
+                    let (stage, c) = run.sending[p];
+                    let kind = match (stage, rng.below(10)) {
+                        (1, 0..=6) => { run.sending[p].0 = 2; 1 }
+                        (2, 0..=5) => { run.sending[p].0 = 3; 2 }
+                        (2, 6 | 7) | (3, 0..=7) => { run.sending[p].0 = 0; 0 }
+                        (1..=3, _) => { run.sending[p].0 = 0; 3 }
                         (_, 0) => 0,
                         _ => continue,
                     };
-                    run.report(p, kind);
+                    // sometimes a (late) report from another connection of the peer
+                    let c = if stage == 0 || rng.chance(1, 10) { *rng.pick(&run.conns[p]) } else { c };
+                    run.report(p, c, kind);
                     tags.push(format!("op/report{kind}"));
                 }
             }
             20..=27 => {
                 // a message from a peer: wantlist and/or blocks and/or presences
                 let p = rng.usize(npeers);
-                if !run.connected[p] && !rng.chance(1, 10) {
+                if run.conns[p].is_empty() && !rng.chance(1, 10) {
                     continue;
                 }
                 let mut m = Message::default();
